@@ -266,7 +266,11 @@ func checkSigToken(r *Report, m *spModel, sr *sigRoles) {
 	fc := a.Ctx(fn)
 	fc.ensureConds()
 	r.Fn(p.FnName(fn))
-	par, _ := sigReqParam(fn)
+	// the token: a parameter, or a field of a parameter object
+	var par ssa.Value
+	if slot, ok := slotOf(fn, isSigReqType); ok {
+		par = slotValueIn(fn, slot)
+	}
 	vcs := validatorCalls(fc, sr)
 	for _, b := range fn.Blocks {
 		for _, in := range b.Instrs {
@@ -314,13 +318,23 @@ func checkSigToken(r *Report, m *spModel, sr *sigRoles) {
 				if scf == nil {
 					continue
 				}
-				_, ti := sigReqParam(scf)
-				if ti < 0 || ti >= len(c.Call.Args) {
+				tslot, okSlot := slotOf(scf, isSigReqType)
+				if !okSlot || tslot.Param >= len(c.Call.Args) {
+					continue
+				}
+				tok, forwarded := slotArgAt(callSite{Caller: caller, Instr: c}, tslot)
+				if forwarded {
+					r.Fn(p.FnName(caller))
+					r.OK(rule, fmt.Sprintf("%s: signature token passed to %s", p.FnName(caller), p.FnName(scf)), p.InstrPos(in), "the caller's own context object is handed on unchanged")
+					continue
+				}
+				if tok == nil {
+					r.Fn(p.FnName(caller))
+					r.Undecided(rule, fmt.Sprintf("%s: signature token passed to %s", p.FnName(caller), p.FnName(scf)), p.InstrPos(in), "the token field of the context object passed here could not be resolved to one value")
 					continue
 				}
 				cfc.ensureConds()
 				r.Fn(p.FnName(caller))
-				tok := c.Call.Args[ti]
 				cons := fmt.Sprintf("%s: signature token passed to %s", p.FnName(caller), p.FnName(scf))
 				required := cfc.eqFormula(c, tok, ssaConstLike(tok, 0))
 				notReq := B.And(cfc.Cond(b), B.Not(required))
@@ -330,8 +344,10 @@ func checkSigToken(r *Report, m *spModel, sr *sigRoles) {
 				}
 				// justifications: own parameter already 'not required' (forward), or validated here
 				just := B.False
-				if own, _ := sigReqParam(caller); own != nil {
-					just = B.Or(just, B.Not(cfc.eqFormula(c, own, ssaConstLike(own, 0))))
+				if oslot, ok := slotOf(caller, isSigReqType); ok {
+					if own := slotValueIn(caller, oslot); own != nil {
+						just = B.Or(just, B.Not(cfc.eqFormula(c, own, ssaConstLike(own, 0))))
+					}
 				}
 				ei := elementParam(scf)
 				var elArg ssa.Value
@@ -998,22 +1014,41 @@ func checkSamePath(r *Report, m *spModel, sr *sigRoles) {
 		cons := fmt.Sprintf("%s: context passed to the assertion parser", p.FnName(caller))
 		ok := true
 		var why []string
-		for i, prm := range m.AssertFn.Params {
-			arg := cs.Arg(i)
-			if i == 0 || arg == nil {
+		for _, cv := range []struct {
+			pred     func(types.Type) bool
+			what, ts string
+		}{{isStringSlice, "request IDs", "[]string"}, {isTimeType, "validation time", "time.Time"}} {
+			slot, okSlot := slotOf(m.AssertFn, cv.pred)
+			if !okSlot {
 				continue
 			}
-			ts := types.TypeString(prm.Type(), nil)
-			if ts == "[]string" || ts == "time.Time" {
-				// inside a function literal of the caller the caller's parameter is a captured variable
-				if cv := capturedValue(arg); cv != arg {
-					arg = cv
+			arg, forwarded := slotArgAt(cs, slot)
+			if forwarded {
+				continue // the caller's own context object handed on unchanged
+			}
+			what, ts := cv.what, cv.ts
+			if arg == nil {
+				ok = false
+				why = append(why, what+" could not be resolved at this call")
+				continue
+			}
+			// inside a function literal of the caller the caller's parameter is a captured variable
+			if cpt := capturedValue(arg); cpt != arg {
+				arg = cpt
+			}
+			if ld, isLd := arg.(*ssa.UnOp); isLd {
+				if al, isAl := ld.X.(*ssa.Alloc); isAl {
+					if sv := capturedSingleStore(al); sv != nil {
+						arg = sv
+					} else if sv := wholeStore(al); sv != nil {
+						arg = sv
+					}
 				}
-				pa, isParam := arg.(*ssa.Parameter)
-				if !isParam || types.TypeString(pa.Type(), nil) != ts {
-					ok = false
-					why = append(why, fmt.Sprintf("argument %s is %s, not the caller's own parameter", prm.Name(), fc.AP(arg)))
-				}
+			}
+			pa, isParam := arg.(*ssa.Parameter)
+			if !isParam || types.TypeString(pa.Type(), nil) != ts {
+				ok = false
+				why = append(why, fmt.Sprintf("%s is %s, not the caller's own parameter", what, fc.AP(arg)))
 			}
 		}
 		r.Check(ok, rule, cons, p.InstrPos(cs.Instr.(ssa.Instruction)), "request IDs and validation time forwarded unchanged", strings.Join(why, "; "))
